@@ -361,16 +361,22 @@ def corr_c18(ctx, chk, broken):
     rc, _ = chk.sh(['lake', 'build', 'Z80.Gen.CPMGlue', 'Z80.Gen.TinyCPM'], cwd=chk.LEAN, timeout=1800)
     glue = {'sequences': n, 'operations': len(lines)}
     try:
-        refused = '_refused' in open(os.path.join(chk.LEAN, 'Z80', 'Gen', 'CPMGlue.lean')).read() or '_refused' in open(os.path.join(chk.LEAN, 'Z80', 'Gen', 'TinyCPM.lean')).read()
+        refused = '_refused' in open(os.path.join(chk.LEAN, 'Z80', 'Gen', 'CPMGlue.lean')).read()
+        pages_refused = '_refused' in open(os.path.join(chk.LEAN, 'Z80', 'Gen', 'TinyCPM.lean')).read()
     except OSError:
-        refused = True
-    if rc != 0 or refused:
-        glue['translated_methods_stream'] = 'NOT AVAILABLE: Z80.Gen.CPMGlue does not build (the translator refused internal/tinycpm)'
-    else:
+        refused = pages_refused = True
+    driver = 'DriverCPMGlue.lean'
+    if pages_refused:
+        glue['translated_methods_stream'] = 'NOT AVAILABLE: the BIOS pages could not be extracted from internal/tinycpm (Z80.Gen.TinyCPM refused)'
+    elif rc != 0 or refused:
+        # the current source cannot be translated: the search falls back to the hand-written reading of the glue as its oracle
+        glue['translated_methods_stream'] = 'NOT AVAILABLE: Z80.Gen.CPMGlue does not build (the translator refused internal/tinycpm); compared with the hand-written glue model instead'
+        driver = 'DriverCPMGlueSpec.lean'
+    if not pages_refused:
         from concurrent.futures import ThreadPoolExecutor
         with ThreadPoolExecutor(max_workers=2) as ex:
             f1 = ex.submit(chk.sh, [os.path.join(chk.WORK, 'harness'), 'cpmglue'], None, None, 1800, ops)
-            f2 = ex.submit(chk.sh, ['lake', 'env', 'lean', '--run', 'DriverCPMGlue.lean'], chk.LEAN, None, 1800, ops)
+            f2 = ex.submit(chk.sh, ['lake', 'env', 'lean', '--run', driver], chk.LEAN, None, 1800, ops)
             go = [l for l in f1.result()[1].splitlines() if l and not l.startswith('WARNING')]
             le = [l for l in f2.result()[1].splitlines() if l and not l.startswith('WARNING')]
         if len(go) != len(lines) or len(le) != len(lines):
@@ -387,7 +393,7 @@ def corr_c18(ctx, chk, broken):
                 if len([o for o in out if o['stream'] == 'cpmglue']) >= 3:
                     break
         glue['distribution'] = dict(sorted(kinds.items()))
-        glue['translated_methods_stream'] = 'compared on every operation'
+        glue.setdefault('translated_methods_stream', 'compared on every operation')
     # several machines in one process: each console receives exactly what ITS machine prints (deterministic two-machine schedule with
     # a slow console + 8 free-running machines), run under the race detector when that build exists
     exe, race = race_bin(chk)
@@ -568,6 +574,25 @@ def corr_mirror(per_quick, per_thorough):
         cov['correspondence']['mirror_pairs'] = n_cmp
         cov['correspondence']['mirror_pairs_skipped_prefix_observed'] = n_skip
         cov['rule'] += ' | mirror: every DD/DDCB vector is also run as its FD/FDCB mirror (IX and IY exchanged, prefix byte replaced) on the REAL code and the results compared after un-mirroring (registers, memory, ordered log)'
+        # the same pairs with a memory whose m-th access pokes A, F, BC, DE, HL (order of register reads relative to bus accesses)
+        import os
+        v2 = chk.gen_vectors('slots', ['-seed', str(ctx.seed + 4), '-per', str(max(2, per // 2)), '-tables', 'dd,ddcb'])
+        pl = [l for l in v2.splitlines() if l.strip()]
+        rc, mo = chk.sh([os.path.join(chk.WORK, 'harness'), 'mirrorpoke'], inp='\n'.join(pl) + '\n', timeout=3600)
+        ml = [l for l in mo.splitlines() if l and not l.startswith('WARNING')]
+        byid = {l.split(' ', 1)[0]: l for l in pl}
+        n_same = 0
+        for l in ml:
+            vid, _, rest = l.partition(' ')
+            if rest == 'same':
+                n_same += 1
+            elif rest != 'skipped':
+                out.append({'stream': 'mirror-poke', 'id': vid, 'vector': byid.get(vid, ''), 'real': rest[:2500], 'other': 'the FD form must do to IY what the DD form does to IX, also in the order in which registers are read relative to the bus accesses'})
+        if len(ml) != len(pl):
+            out.append({'stream': 'mirror-poke', 'id': 'length', 'vector': mo[-1500:], 'real': f'{len(ml)} answers for {len(pl)} vectors', 'other': None})
+        cov['evaluations'] += 10 * n_same
+        cov['correspondence']['mirror_poke_pairs'] = n_same
+        cov['rule'] += ' | mirror-poke: DD/DDCB vectors and their FD twins on the real code with a memory whose 2nd..6th bus access changes A, F, BC, DE, HL; results compared after un-mirroring'
         return out, cov
     return run
 
